@@ -8,4 +8,9 @@ SampleSpec == SampleInit /\ [][Next]_vars
 CoreInit == /\ sc \in {x \in Scen : x.cut = "full" /\ x.cmd = 1 /\ x.methods = "m02"}
             /\ phase = "start" /\ toClient = <<>> /\ toAgent = <<>> /\ table = FALSE /\ last = [op |-> "none"] /\ hist = <<>>
 CoreSpec == CoreInit /\ [][Next]_vars
+(* a pause in the middle of a connection's life *)
+SlowInit == /\ sc \in {x \in Scen : x.cut = "full" /\ x.cmd = 1 /\ x.methods = "m02" /\ x.atyp \in {1, 3} /\ x.dlen = 1 /\ x.seg = "separate" /\ x.answer \in {"ok", "refused"}}
+            /\ phase = "start" /\ toClient = <<>> /\ toAgent = <<>> /\ table = FALSE /\ last = [op |-> "none"] /\ hist = <<>>
+SlowSpec == SlowInit /\ [][Next \/ Wait]_vars
+EmitSlow == (Terminal /\ \E i \in 1..Len(hist) : hist[i].op = "Wait") => PrintT(<<"BEHAVIOUR", ToJson(<<[op |-> "Scenario", sc |-> sc]>> \o hist)>>)
 =============================================================================
